@@ -10,6 +10,7 @@ import (
 )
 
 func NewLimitScanner(opt Options) (*LimitScanner, error) {
+	opt = verifOptions(opt)
 	if opt.Txn == nil {
 		return nil, errors.New("limit scanner requires Options.Txn")
 	}
